@@ -416,6 +416,8 @@ impl SyncRequester {
                 // not the best strategy as if you are far enough ahead of
                 // the other client they will just send you everything they have.
                 while commands.len() < COMMAND_SAMPLE_MAX && !current.is_empty() {
+                    #[cfg(aranya_verif)]
+                    crate::verif::tick();
                     let mut next = vec::Vec::new(); //BUG not constant memory
 
                     'current: for &location in &current {
@@ -438,6 +440,8 @@ impl SyncRequester {
                             .map_err(|_| SyncError::CommandOverflow)?;
                         next.extend(segment.prior());
                         if commands.len() >= COMMAND_SAMPLE_MAX {
+                            #[cfg(aranya_verif)]
+                            crate::verif::probe("req.sample_truncated");
                             break 'current;
                         }
                     }
